@@ -56,6 +56,10 @@ type Stmt struct {
 	// queue
 	Act string `json:"act,omitempty"` // ADD REPLACE DELETE
 	Bs  []int  `json:"bs,omitempty"`
+	// queue, elec: which Modify() handle the call is made on: 0 = a fresh c.Modify(),
+	// 1 = the handle the previous call returned (call chaining), 2 = a handle obtained once,
+	// before the first statement, and kept
+	H int `json:"h,omitempty"`
 }
 
 type Case struct {
@@ -67,7 +71,7 @@ type Case struct {
 
 func setup() {
 	c := ev.C()
-	c.Rule = "builder programs: sequences of constructor / With* / Add* calls on the five entry builders and both encap-header builders (any order, repeated; header builders are completed before they are added), interleaved with AddEntry/ReplaceEntry/DeleteEntry over one or more builders, UpdateElectionID, StartSending at a drawn position and OpProto/EntryProto probes, on a fluent client in elected-primary or all-primary mode connected to a recording stub; builders keep being mutated after they were queued. Oracle: an independent interpreter builds the expected AFTOperation/AFTEntry from scratch (last call wins per setter, append per Add*), the expected ids 1,2,3.., operation type and election stamp; compared with OpProto()/EntryProto() at probe points and, only at the very end (so aliasing shows), with the ModifyRequest pointers the stub received (proto.Equal). Non-trivial = a builder call after a queue call on the same builder, or an UpdateElectionID between two queue calls, or >=6 distinct setters; distinct by FNV-64 of the case JSON."
+	c.Rule = "builder programs: sequences of constructor / With* / Add* calls on the five entry builders and both encap-header builders (any order, repeated; header builders are completed before they are added), interleaved with AddEntry/ReplaceEntry/DeleteEntry over one or more builders and UpdateElectionID - each made on a fresh c.Modify(), on the handle the previous call returned (chaining) or on a handle kept from the start -, StartSending at a drawn position and OpProto/EntryProto probes, on a fluent client in elected-primary or all-primary mode connected to a recording stub; builders keep being mutated after they were queued. Oracle: an independent interpreter builds the expected AFTOperation/AFTEntry from scratch (last call wins per setter, append per Add*), the expected ids 1,2,3.., operation type and election stamp; compared with OpProto()/EntryProto() at probe points and, only at the very end (so aliasing shows), with the ModifyRequest pointers the stub received (proto.Equal). Non-trivial = a builder call after a queue call on the same builder, or an UpdateElectionID between two queue calls, or a kept/chained handle used after an election update, or >=6 distinct setters; distinct by FNV-64 of the case JSON."
 	c.Assumptions = []string{"encap-header builders are not touched after being passed to AddEncapHeader; repeated WithLabels on one header is not generated (ambiguous)"}
 }
 
@@ -453,6 +457,10 @@ func runCase(c Case) *ev.Verdict {
 
 	var eb []*ebuilder
 	var rb []*rbuilder
+	retained := cl.Modify()
+	chain := cl.Modify()
+	staleHandle := false // a kept or chained handle was used after an election update made through any handle
+	elecSeen := false
 	// expected messages
 	var want []*spb.ModifyRequest
 	var wantPre []*spb.ModifyRequest // queued before StartSending
@@ -536,13 +544,23 @@ func runCase(c Case) *ev.Verdict {
 			}
 			tq := captb.New("c18")
 			if f := tq.Run(func(t testing.TB) {
+				h := cl.Modify()
+				switch st.H {
+				case 1:
+					h = chain
+				case 2:
+					h = retained
+				}
+				if st.H != 0 && elecSeen {
+					staleHandle = true
+				}
 				switch st.Act {
 				case gen.ADD:
-					cl.Modify().AddEntry(t, es...)
+					chain = h.AddEntry(t, es...)
 				case gen.REPLACE:
-					cl.Modify().ReplaceEntry(t, es...)
+					chain = h.ReplaceEntry(t, es...)
 				default:
-					cl.Modify().DeleteEntry(t, es...)
+					chain = h.DeleteEntry(t, es...)
 				}
 			}); f != nil || tq.Fataled() {
 				v.Fail("C18/queue-failed", "statement %d: %s failed: %v %v", i, st.Act, f, tq.Fatals)
@@ -558,7 +576,15 @@ func runCase(c Case) *ev.Verdict {
 			if c.Mode != "elected" {
 				continue
 			}
-			cl.Modify().UpdateElectionID(tb, st.U, st.U2)
+			switch st.H {
+			case 1:
+				chain = chain.UpdateElectionID(tb, st.U, st.U2)
+			case 2:
+				chain = retained.UpdateElectionID(tb, st.U, st.U2)
+			default:
+				chain = cl.Modify().UpdateElectionID(tb, st.U, st.U2)
+			}
+			elecSeen = true
 			cur = &gen.ID128{Lo: st.U, Hi: st.U2}
 			emit(&spb.ModifyRequest{ElectionId: cur.Proto()})
 			if queues > 0 {
@@ -654,7 +680,10 @@ func runCase(c Case) *ev.Verdict {
 		v.Class(">=6-setters")
 	}
 	v.Class("mode:" + c.Mode)
-	v.NonTrivial = callAfterQueue || elecBetween || len(setters) >= 6
+	if staleHandle {
+		v.Class("kept-or-chained-handle-used-after-election-update")
+	}
+	v.NonTrivial = callAfterQueue || elecBetween || len(setters) >= 6 || staleHandle
 	return v
 }
 
@@ -785,14 +814,14 @@ func drawCase(rt *rapid.T) Case {
 			b := rapid.IntRange(0, len(kinds)-1).Draw(rt, "b")
 			c.Prog = append(c.Prog, drawCall(rt, b, kinds[b]))
 		case k < 15:
-			st := Stmt{K: "queue", Act: pick(rt, []string{gen.ADD, gen.REPLACE, gen.DELETE}, "act")}
+			st := Stmt{K: "queue", Act: pick(rt, []string{gen.ADD, gen.REPLACE, gen.DELETE}, "act"), H: drawHandle(rt)}
 			nb := rapid.IntRange(1, 3).Draw(rt, "nentries")
 			for j := 0; j < nb; j++ {
 				st.Bs = append(st.Bs, rapid.IntRange(0, len(kinds)-1).Draw(rt, "b"))
 			}
 			c.Prog = append(c.Prog, st)
 		case k < 17:
-			c.Prog = append(c.Prog, Stmt{K: "elec", U: uint64(rapid.IntRange(1, 9).Draw(rt, "lo")), U2: uint64(rapid.IntRange(0, 2).Draw(rt, "hi"))})
+			c.Prog = append(c.Prog, Stmt{K: "elec", U: uint64(rapid.IntRange(1, 9).Draw(rt, "lo")), U2: uint64(rapid.IntRange(0, 2).Draw(rt, "hi")), H: drawHandle(rt)})
 		default:
 			c.Prog = append(c.Prog, Stmt{K: "check", B: rapid.IntRange(0, len(kinds)-1).Draw(rt, "b")})
 		}
@@ -837,4 +866,17 @@ func TestCampaign(t *testing.T) {
 		return ev.JSON(c)
 	})
 	_ = fmt.Sprint
+}
+
+// drawHandle: half of the calls go through a fresh c.Modify(), the rest through the handle
+// the previous call returned (chaining, the style of the package documentation) or a handle
+// kept from the start.
+func drawHandle(rt *rapid.T) int {
+	switch rapid.IntRange(0, 5).Draw(rt, "handle") {
+	case 0, 1:
+		return 1
+	case 2:
+		return 2
+	}
+	return 0
 }
